@@ -329,7 +329,7 @@ REQUIRED_ANSWER = {
 
 def need(what, required, seen):
     if required - seen:
-        raise core.Machinery("vacuity: %s never exercised: %s" % (what, sorted(required - seen)))
+        core.vacuity("%s never exercised: %s" % (what, sorted(required - seen)))
 
 
 # ---------------------------------------------------------------------------
